@@ -2,9 +2,9 @@
    Executable definitions only; proofs are in Proofs.v.
 
    The arithmetic leaves (likelihood / posterior / chi-squared conversion / pyswarms resample value)
-   and the four implementation traits (does the history keep the caller's buffer by reference, is the
+   and the five implementation traits (does the history keep the caller's buffer by reference, is the
    chi-squared conversion performed in place, does the pyswarms fitness record a history, are the history
-   lists created only after the constructor's sanity evaluation) are
+   lists created only after the constructor's sanity evaluation, does that evaluation go through __call__) are
    REGENERATED from /repo into Gen.v on every run; everything here is written over an abstract
    number type so that the same definitions run bit-exactly on binary64 (correspondence) and on
    exact rationals (theorems about the meaning of the formulas). *)
@@ -226,15 +226,24 @@ Fixpoint run_with (stp : state -> op -> state * list res) (st : state) (ops : li
   end.
 Definition run (pyswarms : bool) := run_with (if pyswarms then step_ps else step).
 
-(* Fitness.__init__ given the paths of a resumed fit: check_log_likelihood evaluates the stored best
-   vector through __call__ INSIDE the constructor.  `late` = the two history lists are created only
-   after that evaluation: a successful evaluation that wants to record itself then raises
-   AttributeError (None); otherwise the lists are created afterwards, i.e. empty. *)
-Definition construct (late : bool) (st : state) (pbuf : nat) : option state :=
+(* Fitness.__init__ given the paths of a resumed fit: check_log_likelihood evaluates the stored best vector
+   INSIDE the constructor.
+   via_call (the code as first pinned): through __call__, i.e. an ordinary call; `late` = the two history
+   lists are created only after that evaluation: a successful evaluation that wants to record itself then
+   raises AttributeError (None); otherwise the lists are created afterwards, i.e. empty. *)
+Definition construct_via_call (late : bool) (st : state) (pbuf : nat) : option state :=
   let st1 := fst (step st (OCall pbuf)) in
   if late then
     if length (hist st1) =? length (hist st) then Some {| heap := heap st; hist := [] |} else None
   else Some st1.
+(* direct (current code): instance_from_vector, then the likelihood itself, compared with the stored log
+   likelihood; nothing passes through __call__, so the fitness is untouched.  Anything but a successful
+   evaluation leaves the constructor as an exception (FitException / AssertionError escape, or the comparison
+   with the stored value fails: SearchException); the stored value is assumed to be that likelihood. *)
+Definition construct_direct (st : state) (pbuf : nat) : option state :=
+  match evaluate m L (buf (heap st) pbuf) with EvOk _ _ => Some st | _ => None end.
+Definition construct (via_call late : bool) (st : state) (pbuf : nat) : option state :=
+  if via_call then construct_via_call late st pbuf else construct_direct st pbuf.
 
 (* what a reader of fitness.parameters_history_list / log_likelihood_history_list sees *)
 Definition view (st : state) : list (list V * V) :=
@@ -380,7 +389,7 @@ Definition model_run (c : case) :=
                              {| heap := heap0; hist := [] |} ops in
       (false, outs, view st)
   | CCtor fl r m s tab sumtab heap0 pbuf ops _ _ _ =>
-      match construct (numF sumtab) current_impl m (run_script s) (table_lp tab) fl r impl_ctor_history_late
+      match construct (numF sumtab) current_impl m (run_script s) (table_lp tab) fl r impl_ctor_via_call impl_ctor_history_late
                       (fresh0 heap0) pbuf with
       | None => (true, [], [])
       | Some st0 =>
